@@ -83,6 +83,19 @@ TReplace ==
          SeqToSet(Ev.added_after) = ReplaceAdded(SeqToSet(Ev.added), Ev.old, Ev.new))
   /\ UNCHANGED <<tnow, tin>> /\ Step
 
+TReplaceVar ==
+  /\ IsEvent("replace_var")
+  /\ LET vs == [i \in 1..Len(Ev.vars) |-> <<Ev.vars[i][1], Ev.vars[i][2], Ev.vars[i][3]>>]
+         r == ReplaceVarRes(Ev.inp, Ev.at, vs, SeqToSet(Ev.added), SeqToSet(Ev.gbvars), Ev.old, Ev.new)
+     IN /\ Chk("replace_var_raises_iff_old_has_a_distribution_and_new_has_none", Ev.raised = r[4])
+        /\ Chk("replace_var_rewires_proxy_value_and_distribution_users", Ev.inp_after = r[1])
+        /\ Chk("replace_var_updates_the_builders_lists",
+               SeqToSet(Ev.added_after) = r[2] /\ SeqToSet(Ev.gbvars_after) = r[3])
+        /\ Chk("replace_var_leaves_no_user_of_the_old_variable",
+               Ev.raised \/ Ev.new_depends_on_old      \* replacing a variable by one of its descendants is not meaningful
+                 \/ NoUserOfOldLeft(Ev.inp_after, Ev.at, vs, SeqToSet(Ev.added_after), SeqToSet(Ev.gbvars_after), Ev.old))
+  /\ UNCHANGED <<tnow, tin>> /\ Step
+
 TRename ==
   /\ IsEvent("rename")
   /\ LET Sub(nm) == Ev.sub[nm] IN
@@ -90,5 +103,5 @@ TRename ==
          Ev.names_after = Renamed(Ev.inp, SeqToSet(Ev.added), Ev.names, Sub))
   /\ UNCHANGED <<tnow, tin>> /\ Step
 
-TNext == TReplace \/ TRename \/ TWiring \/ TVarGraph \/ TBuilder \/ TEpochStart \/ TAdvance \/ TSetSeed \/ TGroup
+TNext == TReplace \/ TReplaceVar \/ TRename \/ TWiring \/ TVarGraph \/ TBuilder \/ TEpochStart \/ TAdvance \/ TSetSeed \/ TGroup
 =============================================================================
